@@ -172,19 +172,17 @@ def m_power_of_replaced_power(case, v):
     unfolded power (b**m)**(n/m), which is not eq to b**n (and differs from it off the positive real axis)"""
     if "substituting the replacements back" not in v.msg:
         return False
-    names = {a[1] for a, b in v.detail.get("repl", []) if b[:1] == ["Pow"]}
-
-    def hit(d):
-        if isinstance(d, list):
-            if d[:1] == ["Pow"] and d[1][:1] == ["Symbol"] and d[1][1] in names and d[2][:1] == ["Rational"]:
-                return True
-            if d[:1] == ["Mul"]:
-                for b, e in d[2]:
-                    if b[:1] == ["Symbol"] and b[1] in names and e[:1] == ["Rational"]:
-                        return True
-            return any(hit(x) for x in d)
-        return False
-    return hit(v.detail.get("reduced"))
+    repl = v.detail.get("repl", [])
+    names = {a[1] for a, b in repl if b[:1] == ["Pow"]}
+    # also replacements defined as a power of such a symbol
+    more = True
+    while more:
+        more = False
+        for a, b in repl:
+            if a[1] not in names and b[:1] == ["Pow"] and b[1][:1] == ["Symbol"] and b[1][1] in names:
+                names.add(a[1])
+                more = True
+    return bool(names) and bool(names & syms_in_dump(v.detail.get("reduced")) or any(names & syms_in_dump(b) for a, b in repl))
 
 
 C37.matchers = {"user_function_named_like_marker": m_user_function_named_like_marker,
